@@ -499,6 +499,10 @@ func (t *Table) Put(input *types.PutItemInput) (map[string]*types.Item, error) {
 		}
 	}
 
+	if err := t.validateIndexKeys(item); err != nil {
+		return nil, err
+	}
+
 	t.setItem(key, item)
 
 	for _, index := range t.Indexes {
@@ -509,6 +513,16 @@ func (t *Table) Put(input *types.PutItemInput) (map[string]*types.Item, error) {
 	}
 
 	return item, nil
+}
+
+func (t *Table) validateIndexKeys(item map[string]*types.Item) error {
+	for _, index := range t.Indexes {
+		if _, err := index.keySchema.GetKey(t.AttributesDef, item); err != nil {
+			return types.NewError("ValidationException", err.Error(), nil)
+		}
+	}
+
+	return nil
 }
 
 func (t *Table) interpreterUpdate(input interpreter.UpdateInput) error {
@@ -555,12 +569,15 @@ func (t *Table) Update(input *types.UpdateItemInput) (map[string]*types.Item, er
 		}
 	}
 
+	oldItem := copyItem(item)
+
 	if !ok {
 		// types creates a new item when the item does not exists
 		item = copyItem(input.Key)
+	} else {
+		// work on a copy so that a failing update leaves the stored item untouched
+		item = copyItem(item)
 	}
-
-	oldItem := copyItem(item)
 
 	err = t.interpreterUpdate(interpreter.UpdateInput{
 		TableName:  t.Name,
@@ -570,6 +587,10 @@ func (t *Table) Update(input *types.UpdateItemInput) (map[string]*types.Item, er
 		Aliases:    input.ExpressionAttributeNames,
 	})
 	if err != nil {
+		return nil, err
+	}
+
+	if err := t.validateIndexKeys(item); err != nil {
 		return nil, err
 	}
 
